@@ -353,7 +353,9 @@ func (c *Ctx) c13Email() {
 				k, _ := constArgStr(g, 1)
 				return k == authed
 			}
-			okGate := HoldsAt(call.(ssa.Instruction), func(f Fact) bool { return flagOff(f) || isAuthed(f) })
+			gate := func(f Fact) bool { return flagOff(f) || isAuthed(f) }
+			// `!required || verified(r)`: the call sits at the join of the two tests
+			okGate := HoldsAt(call.(ssa.Instruction), gate) || HoldsAtJoin(call.(ssa.Instruction), gate)
 			r.Check(okGate, "C13.email", FuncName(body), "handler.ServeHTTP", posf(c, call), "wrapped enrolment handler runs only when authorisation is off or session["+authed+"]==\"true\"", "the wrapped enrolment handler can run without the e-mail authorisation mark")
 		}
 	}
@@ -519,11 +521,7 @@ func (c *Ctx) recoveryClosedOnEnrol(fn *ssa.Function, effect, use ssa.CallInstru
 		return
 	}
 	for _, rd := range reads {
-		q := PathQuery{StartBlock: rd.fn.Blocks[0], Goal: func(i ssa.Instruction) bool { return i == rd.call.(ssa.Instruction) }, Prune: func(from, to *ssa.BasicBlock) bool {
-			f, ok := EdgeFact(from, to)
-			if !ok {
-				return false
-			}
+		q := PathQuery{StartBlock: rd.fn.Blocks[0], Goal: func(i ssa.Instruction) bool { return i == rd.call.(ssa.Instruction) }, PruneFact: func(f Fact) bool {
 			rel := f.Rel()
 			if rel.Op != token.EQL || fieldLoadName(rel.X) != "Page" {
 				return false
